@@ -123,6 +123,25 @@ def reached_functions():
     return out
 
 
+def deletion_sites(src):
+    """single-line simple statements inside functions (assignments, augmented assignments, bare calls) replaced by `pass`"""
+    tree = ast.parse(src)
+    lines = src.split("\n")
+    out = []
+    for fn in ast.walk(tree):
+        if not isinstance(fn, (ast.FunctionDef, ast.AsyncFunctionDef)):
+            continue
+        for node in ast.walk(fn):
+            if isinstance(node, (ast.Assign, ast.AugAssign)) or (isinstance(node, ast.Expr) and isinstance(node.value, ast.Call)):
+                if node.lineno != node.end_lineno:
+                    continue
+                line = lines[node.lineno - 1]
+                if line.strip().startswith(("self.notify_listeners", "print(")):
+                    continue
+                out.append((node.lineno, node.col_offset, node.end_col_offset, "pass", "statement deleted"))
+    return sorted(set(out))
+
+
 def mutate(src, site):
     ln, c0, c1, new, what = site
     lines = src.split("\n")
@@ -192,6 +211,7 @@ def main():
     ap.add_argument("--seed", type=int, default=1)
     ap.add_argument("--jobs", type=int, default=5)
     ap.add_argument("--only")
+    ap.add_argument("--ops", default="edit", choices=["edit", "delete"])
     ap.add_argument("--out", default=os.path.join(HERE, "AUTOMUTANTS.json"))
     a = ap.parse_args()
     anc = neg_eval.anchors()
@@ -208,7 +228,7 @@ def main():
         fl = L.function_lines(os.path.join(REPO, rel))
         mod = rel.split("mingus/", 1)[-1][:-3].replace("/", ".")
         # only inside functions some check enters (an edit in code no workload reaches survives trivially and says nothing)
-        ss = [x for x in sites(src) if (mod + "." + fl.get(x[0], "?")) in reached]
+        ss = [x for x in (deletion_sites(src) if a.ops == "delete" else sites(src)) if (mod + "." + fl.get(x[0], "?")) in reached]
         rng.shuffle(ss)
         taken, seen_lines = 0, {}
         for s in ss:
